@@ -269,7 +269,7 @@ def validate_episodes(c, module, trace, describe, canary, label, workers=8, time
     return recs, eps, r, idx
 
 
-def split_trace(path, max_events=120000, max_bytes=80 << 20):
+def split_trace(path, max_events=40000, max_bytes=24 << 20):
     """Split an ndjson trace into shard files at episode boundaries (records with "k":0 start an episode) without loading it;
     a shard ends at the first boundary after max_events records or max_bytes bytes (TLC holds the parsed shard in memory).
     Returns [(shard path, first record index, record count)]."""
